@@ -1,4 +1,6 @@
 import Wayfind.Model.Router
+import Wayfind.Spec.Grammar
+import Wayfind.Spec.Fault
 
 /-! Text codec of the line protocol (hex byte strings, canonical result lines). Trusted glue, no theorems. -/
 namespace Driver
@@ -41,6 +43,43 @@ def showTErr : TErr → String
   | .emptyConstraint t a b => s!"EmptyConstraint {hex t} {a} {b}"
   | .invalidConstraint t n a b => s!"InvalidConstraint {hex t} {hex n} {a} {b}"
   | .touchingParameters t a b => s!"TouchingParameters {hex t} {a} {b}"
+
+/-- inverse of `showTErr` on the words after `err` / `err Template` -/
+def parseTErr (ws : List String) : Option TErr :=
+  match ws with
+  | ["Empty"] => some .empty
+  | ["MissingLeadingSlash", t] => (unhex t).map .missingLeadingSlash
+  | [v, t, p] => do
+    let t ← unhex t; let p ← p.toNat?
+    match v with
+    | "EmptyBraces" => some (.emptyBraces t p)
+    | "UnbalancedBrace" => some (.unbalancedBrace t p)
+    | "EmptyParentheses" => some (.emptyParentheses t p)
+    | "UnbalancedParenthesis" => some (.unbalancedParenthesis t p)
+    | _ => none
+  | [v, t, a, b] => do
+    let t ← unhex t; let a ← a.toNat?; let b ← b.toNat?
+    match v with
+    | "EmptyParameter" => some (.emptyParameter t a b)
+    | "EmptyWildcard" => some (.emptyWildcard t a b)
+    | "EmptyConstraint" => some (.emptyConstraint t a b)
+    | "TouchingParameters" => some (.touchingParameters t a b)
+    | _ => none
+  | [v, t, n, a, b] => do
+    let t ← unhex t; let n ← unhex n; let a ← a.toNat?; let b ← b.toNat?
+    match v with
+    | "InvalidParameter" => some (.invalidParameter t n a b)
+    | "InvalidConstraint" => some (.invalidConstraint t n a b)
+    | _ => none
+  | ["DuplicateParameter", t, n, a, b, c, d] => do
+    let t ← unhex t; let n ← unhex n; let a ← a.toNat?; let b ← b.toNat?; let c ← c.toNat?; let d ← d.toNat?
+    some (.duplicateParameter t n a b c d)
+  | _ => none
+
+def showSpecParsed (r : Option (List (Bytes × List Part))) : String :=
+  match r with
+  | none => "reject"
+  | some ts => "ok " ++ ";".intercalate (ts.map (fun (raw, ps) => hex raw ++ "|" ++ ",".intercalate (ps.map showPart)))
 
 def showParsed (r : Except TErr (List (Bytes × List Part))) : String :=
   match r with
